@@ -353,9 +353,13 @@ func c07ExecConc(f []string) (string, []Fail) {
 		}
 		if first != nil {
 			s := subs[first.i]
+			nb := len(s.seq) / 2
+			if s.kind == "dq" {
+				nb = s.from
+			}
 			fails = append(fails, Fail{"conc.differs", fmt.Sprintf(
 				"%d of %d answers obtained concurrently differ from the answer alone; e.g. sub-case %d (%s, %d bases, shared source %v, window %d..%d) in goroutine %d, %s: %s",
-				nbad, total, first.i, s.kind, len(s.seq)/2, s.shared, s.from, s.to, first.goroutine, first.when, c07DiffAt(expected[first.i], first.got))})
+				nbad, total, first.i, s.kind, nb, s.shared, s.from, s.to, first.goroutine, first.when, c07DiffAt(expected[first.i], first.got))})
 		}
 		for i := range subs {
 			if srcs[i] != nil {
@@ -540,6 +544,12 @@ func c07GenConc(rng *rand.Rand, tier string, emit func(string)) {
 	if tier == "thorough" {
 		ncase, g, r, long = 10, 16, 200, 30000
 	}
+	// all the goroutines ask for default qualities longer than any served before, together (no PRNG draw).  On the code
+	// before notes/patches/C07-default-qualities-race.diff this line alone fails in 8 runs out of 10 (zeros among the
+	// 40s, for ever after once it has happened, or slice bounds out of range).
+	c07ConcDqLen += 23020
+	emit(fmt.Sprintf("conc %d 50 1 dq 0 - - - %d 0", g, c07ConcDqLen))
+	stat("gen:conc")
 	for c := 0; c < ncase; c++ {
 		n := 7 + rng.Intn(3)
 		var b strings.Builder
